@@ -78,7 +78,7 @@ var gDesc = oneOf(s(""),
 
 func init() {
 	gValue = oneOf(s("1"),
-		s("-1"), s("0"), s("1.5"), s("-1.5e+3"), s("1E2"),
+		s("-1"), s("0"), s("1.5"), s("-1.5e+3"), s("1E2"), s("1e-2"), s("1E+5"),
 		s(`"s"`), s(`""`), s(`"a\"b\\c\né d"`), s("\"é\U0001F600\""), s("\"a\tb\""),
 		s(`"""b"""`), s(`""""""`), s(`"""a\"""b"""`), s(`"""a "q" b"""`),
 		s("\"\"\"\n    l1\n      l2\n    \"\"\""), s("\"\"\"l1\n  l2\"\"\""), s("\"\"\"l1\r\n\tl2\r\"\"\""),
